@@ -127,6 +127,10 @@ func (packet *Packet) GetBindParameters(paramNum int) ([]base.BoundValue, error)
 		// 7 + num-params offset from docs
 		// For COM_STMT_EXECUTE this offset is 0
 		nullBitMapLength := (paramNum + 7) / 8
+		// the packet comes from the client: it has to hold the bitmap and the new-params-bind flag
+		if len(packet.data) < pos+nullBitMapLength+1 {
+			return nil, base_mysql.ErrMalformPacket
+		}
 		if nullBitMapLength > 0 {
 			nullBitmap = packet.data[pos : pos+nullBitMapLength]
 		}
@@ -143,6 +147,9 @@ func (packet *Packet) GetBindParameters(paramNum int) ([]base.BoundValue, error)
 	pos += +1
 
 	//here we need to gather all provided param types
+	if len(packet.data) < pos+2*paramNum {
+		return nil, base_mysql.ErrMalformPacket
+	}
 	paramTypes := make([]byte, paramNum)
 	for i := 0; i < paramNum; i++ {
 		paramTypes[i] = packet.data[pos]
